@@ -323,6 +323,36 @@ pub fn run(tier: &str) -> i32 {
             }
         }
     }
+    // ---- a key defined twice is an error whatever the values are: null, empty containers, false, 0, "" on either side
+    {
+        let rp = put("c17n/r.guard", "rule r { b exists }\n");
+        let weak = ["null", "[]", "{}", "false", "0", "\"\""];
+        for w1 in weak {
+            for w2 in ["1", "null", w1] {
+                let first = format!("{{\"a\": {}, \"b\": 1}}", w1);
+                let second = format!("{{\"a\": {}}}", w2);
+                let third = "{\"c\": 1}".to_string();
+                let f1 = put("c17n/one.json", &first);
+                let f2 = put("c17n/two.json", &second);
+                let f3 = put("c17n/three.json", &third);
+                for args in [vec!["-d", &f1, "-i", &f2], vec!["-d", &f2, "-i", &f1], vec!["-d", &f3, "-i", &f1, "-i", &f2], vec!["-d", &f3, "-i", &f2, "-i", &f1]] {
+                    for extra in [vec![], vec!["--structured", "-o", "json", "-S", "none"]] {
+                        let mut a = sv(&["validate", "-r", &rp]);
+                        a.extend(args.iter().map(|x| x.to_string()));
+                        a.extend(sv(&extra));
+                        let o = cli_inproc(&a, "");
+                        yn += 1;
+                        res.acc.traces += 1;
+                        let st = o.status();
+                        *res.acc.outcomes.entry(format!("weak-overlap-exit-{}", st)).or_insert(0) += 1;
+                        if o.panic.is_some() || st == 0 || st == 19 {
+                            res.acc.violate(&format!("overlap-silently-accepted:weak-value:{}", if extra.is_empty() { "plain" } else { "structured" }), format!("the key `a` is defined as {} and as {} by two sources ({:?}): exit {} instead of an error", w1, w2, args, st), json!({"kind":"cli","argv":a,"stdin":"","files":{"one.json":first,"two.json":second,"three.json":third},"expected":"error exit","observed":format!("exit {}", st)}));
+                        }
+                    }
+                }
+            }
+        }
+    }
     rep.extra.insert("yaml_scalar_parameter_runs".into(), json!(yn));
     rep.states = res.done as u64 + yn;
     rep.transitions = res.done as u64 + yn;
